@@ -131,7 +131,7 @@ def rule_padding_after_cache(ck, m, rid):
               "padded again (or keep a stale padding) after set_padding()", stmt="_iterate: no cache store after the padding step")
     # padding step reads the current cells
     for p_ in pads:
-        src = norm(trace(itf, p_.ast.value))
+        src = norm(trace(itf, p_.ast.value, keep=("frame",)))
         ck.ob(rid, p_.ast, "self._padded_size" in src and "self._padding.pad(frame.render_output, frame.render_size)" in src,
               "the padding step must use the current self._padding / self._padded_size and pad the unpadded output with the unpadded size", stmt="_iterate: padding step uses current padding")
 
